@@ -217,6 +217,36 @@ def transact_lemma(kind):
     return lemma
 
 
+def serial_flush_lemma(E):
+    """serial clients: whatever is waiting in the port's receive buffer when a request is about to be written - a late reply to an earlier,
+    timed-out transaction - is read and thrown away first, for every serial framing (rtu, ascii, binary): such bytes can then not be taken for
+    the reply to the new request.  (TCP: the framer buffer is reset by execute - pairing lemmas; the socket has no such backlog contract.)"""
+    method = E.choice('method', ['rtu', 'ascii', 'binary'])
+    waiting = E.int('bytes_waiting', 0, 2000)
+    log = []
+
+    def read(k):
+        log.append(('read', k))
+        return E.bytes('stale', 0, 2000)
+
+    def write(data):
+        log.append(('write', data))
+        return L.length(data)
+    sock = E.stub('serial-port', {'read': read, 'write': write}, attrs={'in_waiting': waiting})
+    req = E.bytes('request_frame', 1, 260)
+    cl = E.obj('pymodbus.client.sync.ModbusSerialClient', socket=sock, method=method, timeout=1, state=0, silent_interval=0, last_frame_end=None, framer=None, transaction=None)
+    out = E.attempt(lambda: E.method(cl, '_send', req))
+    E.prove('serial:send-does-not-raise', out.ok)
+    if not out.ok:
+        return
+    writes = [i for i, x in enumerate(log) if x[0] == 'write']
+    reads = [i for i, x in enumerate(log) if x[0] == 'read']
+    E.prove('serial:the-request-is-written-once', L.eq(log[writes[0]][1], req) if len(writes) == 1 else False)
+    E.prove('serial:bytes-waiting-in-the-port-are-discarded-before-the-request-is-written',
+            L.Implies(waiting > 0, len(reads) == 1 and (not writes or reads[0] < writes[0]) and (log[reads[0]][1] == waiting if reads else False)))
+    E.prove('serial:returns-the-number-of-bytes-written', out.value == L.length(req))
+
+
 def tid_lemma(E):
     tm = E.obj(CL.TM, transactions={}, tid=E.int('tid', 0, 65536), client=None)
     old = tm.tid
@@ -283,4 +313,5 @@ def get_units():
             us.append(Unit(nm, pairing(kind, udp), [PROP], contracts=cs, loops={(TMQ + '.execute', 0): retry_ann(ghost)}, twin=pairing_twin(kind),
                            functions=[TMQ + '.execute', TMQ + '._transact', TMQ + '._recv', TMQ + '._send', TMQ + '.getNextTID', CL.TM + '.addTransaction', CL.TM + '.getTransaction']))
     us.append(Unit('%s/tid' % PROP, tid_lemma, [PROP], functions=[TMQ + '.getNextTID']))
+    us.append(Unit('%s/serial.flush' % PROP, serial_flush_lemma, [PROP], functions=['pymodbus.client.sync.ModbusSerialClient._send', 'pymodbus.client.sync.ModbusSerialClient._in_waiting']))
     return us
